@@ -164,6 +164,26 @@ pub fn dispatch(op: &str, a: &[&str]) -> Option<Ans> {
         }
         #[cfg(not(feature = "nightly"))]
         "cont_ops" => ("n/a".into(), "n/a".into()),
+        // alias_lengths: the fixed-length type aliases of the `protected` modules hold exactly as many bytes as libsodium's constants say
+        // (an alias with another length silently changes what the length-inferring forms — `hash()`, `finalize()` — compute)
+        #[cfg(feature = "nightly")]
+        "alias_lengths" => {
+            use dryoc::types::NewByteArray;
+            use libsodium_sys as so;
+            macro_rules! len_of { ($t:ty) => { <$t>::new_byte_array().as_slice().len() } }
+            let got = format!("auth.Key={} auth.Mac={} secretbox.Key={} generichash.Key={} generichash.Hash={} kdf.Key={} kdf.Context={} onetimeauth.Key={} onetimeauth.Mac={} sign.PublicKey={} sign.SecretKey={} sign.Signature={}",
+                len_of!(dryoc::auth::protected::Key), len_of!(dryoc::auth::protected::Mac), len_of!(dryoc::dryocsecretbox::protected::Key),
+                len_of!(dryoc::generichash::protected::Key), len_of!(dryoc::generichash::protected::Hash), len_of!(dryoc::kdf::protected::Key), len_of!(dryoc::kdf::protected::Context),
+                len_of!(dryoc::onetimeauth::protected::Key), len_of!(dryoc::onetimeauth::protected::Mac),
+                len_of!(dryoc::sign::protected::PublicKey), len_of!(dryoc::sign::protected::SecretKey), len_of!(dryoc::sign::protected::Signature));
+            let want = unsafe { format!("auth.Key={} auth.Mac={} secretbox.Key={} generichash.Key={} generichash.Hash={} kdf.Key={} kdf.Context={} onetimeauth.Key={} onetimeauth.Mac={} sign.PublicKey={} sign.SecretKey={} sign.Signature={}",
+                so::crypto_auth_keybytes(), so::crypto_auth_bytes(), so::crypto_secretbox_keybytes(), so::crypto_generichash_keybytes(), so::crypto_generichash_bytes(),
+                so::crypto_kdf_keybytes(), so::crypto_kdf_contextbytes(), so::crypto_onetimeauth_keybytes(), so::crypto_onetimeauth_bytes(),
+                so::crypto_sign_publickeybytes(), so::crypto_sign_secretkeybytes(), so::crypto_sign_bytes()) };
+            (format!("ok {}", got), format!("ok {}", want))
+        }
+        #[cfg(not(feature = "nightly"))]
+        "alias_lengths" => ("n/a".into(), "n/a".into()),
         // serde_ser <cont> <fmt> <payload>: every container serialises a byte string the same way
         "serde_ser" => {
             let (cont, fmt) = (a[0], a[1]);
